@@ -64,6 +64,9 @@ pub enum Op {
     Commit,
     /// prepare_commit, set_payload, then commit
     PrepareCommit,
+    /// prepare_commit + payload, commit_future() (not awaited), delete_term(uid) - which belongs to the NEXT transaction -,
+    /// then wait for the commit
+    CommitThenDelete(u16),
     /// prepare_commit, then abort
     PrepareAbort,
     Rollback,
@@ -99,6 +102,7 @@ pub fn op_strategy(with_delete_all: bool) -> BoxedStrategy<Op> {
         // rare and expensive (see Op::BigRun)
         if with_delete_all { 1 } else { 1 } => (add_strategy(), 6u8..11).prop_map(|(a, n)| Op::BigRun(a, n)),
         2 => Just(Op::PrepareCommit),
+        2 => any::<u16>().prop_map(Op::CommitThenDelete),
         2 => Just(Op::PrepareAbort),
         2 => Just(Op::Rollback),
         3 => any::<u16>().prop_map(Op::Merge),
@@ -527,14 +531,26 @@ impl Env {
                 self.last_opstamp = None;
                 self.dirty = true;
             }
-            Op::Commit | Op::PrepareCommit => {
+            Op::Commit | Op::PrepareCommit | Op::CommitThenDelete(_) => {
                 let payload = format!("c{}", self.commits + 1);
                 let span_start = match &self.dir {
                     DirHandle::Sim(sd) => sd.log_len(),
                     _ => 0,
                 };
+                let late_target = if let Op::CommitThenDelete(raw) = op { self.del_uid_target(*raw) } else { None };
+                let uid_field = self.f.uid;
+                let mut late_delete: Option<(u64, u64)> = None;
                 let w = self.writer.as_mut().unwrap();
-                let o = if matches!(op, Op::Commit) {
+                let o = if let Op::CommitThenDelete(_) = op {
+                    let mut pc = w.prepare_commit().or_fail("prepare_commit_failed")?;
+                    pc.set_payload(&payload);
+                    let fut = pc.commit_future();
+                    if let Some(u) = late_target {
+                        let od = w.delete_term(Term::from_field_u64(uid_field, u));
+                        late_delete = Some((u, od));
+                    }
+                    fut.wait().or_fail("commit_failed")?
+                } else if matches!(op, Op::Commit) {
                     let mut pc = w.prepare_commit().or_fail("prepare_commit_failed")?;
                     pc.set_payload(&payload);
                     pc.commit().or_fail("commit_failed")?
@@ -559,6 +575,13 @@ impl Env {
                 self.committed = self.pending.clone();
                 self.models.push(self.committed.clone());
                 self.dirty = false;
+                if let Some((u, od)) = late_delete {
+                    // the delete was issued while the commit was in flight: it is part of the next transaction
+                    ensure!(od > o, "opstamp_not_increasing", "delete_term issued after prepare_commit returned opstamp {od}, the commit {o}");
+                    self.pending.remove(&u);
+                    self.dirty = true;
+                    self.last_opstamp = Some(od);
+                }
                 {
                     // NB: a loaded IndexMeta registers its segments in the index's inventory and thereby keeps
                     // their files alive for the garbage collector: never hold one across a GC / quiescence check
